@@ -569,4 +569,16 @@ def mapExc {α β : Type} (f : α → Except Exc β) : List α → Except Exc (L
   | x :: xs => (f x).bind (fun y => (mapExc f xs).bind (fun ys => .ok (y :: ys)))
 -- --- end T9
 
+-- --- T11: `sorted(xs)` of ints (harness/translate_t11.py); compared with CPython in harness/prelude_check.py (op `t11_sorted`)
+/-- insertion into an ascending list, before the first element that is not smaller -/
+def insertInt (a : Int) : List Int → List Int
+  | [] => [a]
+  | b :: l => if a ≤ b then a :: b :: l else b :: insertInt a l
+
+/-- `sorted(xs)` for a list / the iteration order of a set of ints -/
+def sortedInts : List Int → List Int
+  | [] => []
+  | a :: l => insertInt a (sortedInts l)
+-- --- T11 end
+
 end OQ.Py
